@@ -234,20 +234,36 @@ def parse_type(s):
     return out
 
 
-def _rand_layout(rng, depth):
-    """a random VALID layout, larger and deeper than the model checker's bound"""
+def _rand_leaf(rng, n):
+    dt = rng.choice(["i64", "i64", "i32", "f64", "b", "u8"])
+    if dt == "b":
+        d = [rng.randint(0, 1) for _ in range(n)]
+    elif dt == "u8":
+        d = [rng.randint(0, 9) for _ in range(n)]
+    else:
+        d = [rng.randint(-3, 9) for _ in range(n)]
+    return {"c": "Numpy", "dt": dt, "d": d}
+
+
+def _rand_layout(rng, depth, allow_record=True):
+    """a random VALID layout (returned with its length), larger and deeper than the model checker's bound: every list class
+    and index width, offsets that do not start at zero, gaps / overlaps / out-of-order lists, all five option encodings,
+    IndexedArray indirection, multidimensional NumPy leaves, records"""
     n = rng.randint(4, 9)
-    leaf = {"c": "Numpy", "dt": rng.choice(["i64", "i32", "f64"]), "d": [rng.randint(-3, 9) for _ in range(n)]}
-    L = leaf
+    L = _rand_leaf(rng, n)
     length = n
+    if rng.random() < 0.15 and n % 2 == 0:
+        L["shape"] = [n // 2, 2]                      # a 2-dimensional NumpyArray: one regular level inside the leaf
+        length = n // 2
+    isopt = False
     for _ in range(depth):
-        kind = rng.choice(["off", "off", "list", "opt", "reg", "idx"])
+        kind = rng.choice(["off", "off", "list", "opt", "reg", "idx", "bytemask", "bitmask", "unmasked", "rec"])
         if kind == "off":
             k = rng.randint(0, 5)
             lo = rng.randint(0, min(2, length))
             cuts = sorted(rng.randint(lo, length) for _ in range(k + 1))
             L = {"c": "ListOffset", "w": rng.choice(["64", "32", "U32"]), "o": cuts, "x": L}
-            length = k
+            length, isopt = k, False
         elif kind == "list":
             k = rng.randint(0, 5)
             ss, ee = [], []
@@ -256,28 +272,48 @@ def _rand_layout(rng, depth):
                 b = rng.randint(a, length)
                 ss.append(a)
                 ee.append(b)
-            L = {"c": "List", "w": rng.choice(["64", "32"]), "s": ss, "e": ee, "x": L}
-            length = k
-        elif kind == "opt" and L["c"] not in ("IndexedOption", "Indexed"):
+            L = {"c": "List", "w": rng.choice(["64", "32", "U32"]), "s": ss, "e": ee, "x": L}
+            length, isopt = k, False
+        elif kind == "opt" and not isopt and L.get("c") != "Indexed":
             k = rng.randint(0, 6)
-            L = {"c": "IndexedOption", "w": "64", "i": [rng.choice([-1] + list(range(length))) if length else -1 for _ in range(k)], "x": L}
-            length = k
-        elif kind == "idx" and L["c"] not in ("IndexedOption", "Indexed") and length > 0:
+            L = {"c": "IndexedOption", "w": rng.choice(["64", "32"]),
+                 "i": [rng.choice([-1, -1] + list(range(length))) if length else -1 for _ in range(k)], "x": L}
+            length, isopt = k, True
+        elif kind == "idx" and not isopt and length > 0 and L.get("c") != "Indexed":
             k = rng.randint(0, 6)
-            L = {"c": "Indexed", "w": rng.choice(["64", "32"]), "i": [rng.randrange(length) for _ in range(k)], "x": L}
+            L = {"c": "Indexed", "w": rng.choice(["64", "32", "U32"]), "i": [rng.randrange(length) for _ in range(k)], "x": L}
             length = k
+        elif kind == "bytemask" and not isopt and L.get("c") != "Indexed":
+            k = rng.randint(0, length)
+            L = {"c": "ByteMasked", "m": [rng.choice([0, 1, 1]) for _ in range(k)], "vw": rng.randint(0, 1), "x": L}
+            length, isopt = k, True
+        elif kind == "bitmask" and not isopt and L.get("c") != "Indexed":
+            k = rng.randint(0, length)
+            nbytes = (k + 7) // 8 + rng.randint(0, 1)
+            L = {"c": "BitMasked", "m": [rng.randint(0, 255) for _ in range(nbytes)], "vw": rng.randint(0, 1), "lsb": rng.randint(0, 1),
+                 "n": k, "x": L}
+            length, isopt = k, True
+        elif kind == "unmasked" and not isopt and L.get("c") != "Indexed":
+            L = {"c": "Unmasked", "x": L}
+            isopt = True
         elif kind == "reg" and length >= 2:
             size = rng.choice([1, 2, 3])
             L = {"c": "Regular", "size": size, "zl": 0, "x": L}
-            length = length // size
-    return L
+            length, isopt = length // size, False
+        elif kind == "rec" and allow_record and rng.random() < 0.5:
+            other, olen = _rand_layout(rng, rng.randint(0, 1), allow_record=False)
+            k = min(length, olen)
+            k = rng.randint(0, k) if rng.random() < 0.3 else k
+            L = {"c": "Record", "tuple": 0, "n": k, "names": ["x", "y"], "xs": [L, other]}
+            length, isopt = k, False
+    return L, length
 
 
 def _rand_op(rng):
     nb = 99999
     k = rng.random()
     ax = rng.choice([-3, -2, -1, 0, 1, 2])
-    if k < 0.35:
+    if k < 0.33:
         def item():
             r = rng.random()
             if r < 0.25:
@@ -301,10 +337,14 @@ def _rand_op(rng):
         return "pad", {"axis": ax, "target": rng.randint(0, 3), "clip": rng.randint(0, 1)}
     if k < 0.80:
         return "comb", {"axis": ax, "n": rng.randint(1, 3), "repl": rng.randint(0, 1)}
-    if k < 0.92:
+    if k < 0.90:
         return "reduce", {"reducer": rng.choice(["count", "sum", "prod", "any", "all", "min", "max", "argmin", "argmax", "count_nonzero"]),
                           "axis": ax, "mask": 1, "keepdims": rng.randint(0, 1)}
-    return rng.choice(["sort", "argsort"]), {"axis": ax, "asc": rng.randint(0, 1), "stable": 1}
+    if k < 0.97:
+        return rng.choice(["sort", "argsort"]), {"axis": ax, "asc": rng.randint(0, 1), "stable": 1}
+    if k < 0.985:
+        return "same", {"o": rng.choice(["simplify", "toListOffsetArray64", "toIndexedOptionArray64", "toByteMaskedArray", "deep_copy"])}
+    return "concatself", {}
 
 
 def _worker_step(op, a):
@@ -318,6 +358,14 @@ def _worker_step(op, a):
         return {"op": "combinations", "axis": a["axis"], "n": a["n"], "replacement": a["repl"]}
     if op == "reduce":
         return {"op": "reduce", "reducer": a["reducer"], "axis": a["axis"], "mask": a["mask"], "keepdims": a["keepdims"]}
+    if op == "same":
+        if a["o"] == "toListOffsetArray64":
+            return {"op": "toListOffsetArray64", "start_at_zero": 0}
+        if a["o"] == "toByteMaskedArray":
+            return {"op": "toByteMaskedArray", "valid_when": 0}
+        return {"op": a["o"]}
+    if op == "concatself":
+        return {"op": "concat0", "others": ["cur"]}
     return {"op": op, "axis": a["axis"], "ascending": a["asc"], "stable": a["stable"]}
 
 
@@ -348,6 +396,23 @@ def _tag(x):
     raise ValueError(x)
 
 
+def _magnitude(x):
+    """an upper bound of |product| and |sum| of all numbers in a nested value"""
+    m = [1]
+
+    def walk(y):
+        if isinstance(y, list):
+            for e in y:
+                walk(e)
+        elif isinstance(y, dict):
+            for e in y.values():
+                walk(e)
+        elif isinstance(y, (int, float)) and not isinstance(y, bool) and y == y:
+            m[0] *= max(2, abs(int(y)) + 1)
+    walk(x)
+    return m[0]
+
+
 def record_chains(worker, seed, ntraces, maxops, env=None):
     """one worker case per chain: each op reads register cur and, if it succeeds with an array, replaces it.
     Returns (traces, metas, problems): traces[t] = events for TLC; metas[t][k] = pseudo-case of event k (operation,
@@ -357,7 +422,7 @@ def record_chains(worker, seed, ntraces, maxops, env=None):
     wcases, plans = [], []
     want = ["json", "type", "valid", "layout"]
     for t in range(ntraces):
-        L = _rand_layout(rng, rng.randint(1, 3))
+        L, _n = _rand_layout(rng, rng.randint(1, 3))
         ops = [_rand_op(rng) for _ in range(rng.randint(2, maxops))]
         steps = [{"op": "build", "dst": "cur", "layout": L, "want": want}]
         for op, a in ops:
@@ -409,6 +474,8 @@ def record_chains(worker, seed, ntraces, maxops, env=None):
                 ev = {"op": op, "args": a, "v": _tag(json.loads(cur_json)), "T": parse_type(cur_type)}
             except ValueError:
                 break                                   # value outside the model's leaf domain: the chain stops here
+            if op == "reduce" and a["reducer"] in ("prod", "sum") and _magnitude(json.loads(cur_json)) >= 2 ** 30:
+                break                                   # TLC's integers are 32-bit: the chain stops before they overflow
             if r.get("ok") == 1:
                 if r.get("json_skipped"):
                     problems.append((m, "result fails validity: %r" % r.get("valid")))
@@ -434,6 +501,8 @@ def record_chains(worker, seed, ntraces, maxops, env=None):
                 m["lib"] = "%s: %s" % (r.get("exc"), r.get("msg"))
                 events.append(ev)
                 ms.append(m)
+            elif op == "same" and any(t in str(r.get("harness")) for t in ("not a", "not an", "wrong class")):
+                continue                                # conversion not defined for this node class: no call was made
             else:
                 problems.append((m, "harness: " + str(r.get("harness"))))
                 break
